@@ -115,7 +115,7 @@ class Minimiser:
     def shrink_transforms(self, sc, ops):
         for aid in sorted(sc["args"]):
             ad = sc["args"][aid]
-            if ad["kind"] != "transforms":
+            if ad["kind"] != "transforms" or "json" not in ad:
                 continue
             changed = True
             while changed and time.time() < self.deadline:
